@@ -975,11 +975,107 @@ class Translator:
             return "(" + ", ".join(parts) + ")"
         raise Untranslatable(f"return value {v}")
 
+    # ---- a second, tiny vocabulary: one resizable 1-d HDF5 dataset of bytes (dump_pickle_to_hdf)
+    def translate_h5dump(self, name, spec, fn):
+        """state = `ds : Option Bytes` (the dataset, `none` = not in the file); the payload is `blob`.
+        Recognised: `name not in target`, sizes (`bdata.size`, `len`, `.shape[0]`), `create_dataset(name, shape=bdata.shape, ...)`,
+        `target[name].resize((n,))`, `target[name][:] = bdata`, if / elif / else, and / or / not, integer comparisons."""
+        blob_names, alias = set(), set()
+
+        def is_dset(e):     # target[dsetname]
+            return isinstance(e, ast.Subscript) and isinstance(e.value, ast.Name) and e.value.id in alias | {"fp"} \
+                and isinstance(e.slice, ast.Name) and e.slice.id == "dsetname"
+
+        def nat(e):
+            u = ast.unparse(e)
+            if isinstance(e, ast.Constant) and isinstance(e.value, int) and e.value >= 0:
+                return str(e.value)
+            for b in blob_names:
+                if u in (f"{b}.size", f"len({b})", f"{b}.shape[0]", f"{b}.nbytes"):
+                    return "blob.length"
+            if isinstance(e, ast.Subscript) and isinstance(e.value, ast.Attribute) and e.value.attr == "shape" and is_dset(e.value.value) \
+                    and isinstance(e.slice, ast.Constant) and e.slice.value == 0:
+                return "(Gen.dsLen ds)"
+            if isinstance(e, ast.Attribute) and e.attr == "size" and is_dset(e.value):
+                return "(Gen.dsLen ds)"
+            if isinstance(e, ast.Call) and isinstance(e.func, ast.Name) and e.func.id == "len" and is_dset(e.args[0]):
+                return "(Gen.dsLen ds)"
+            if isinstance(e, ast.BinOp) and isinstance(e.op, (ast.Add, ast.Sub, ast.Mult)):
+                return f"({nat(e.left)} {'+' if isinstance(e.op, ast.Add) else '-' if isinstance(e.op, ast.Sub) else '*'} {nat(e.right)})"
+            raise Untranslatable(f"size expression {u}")
+
+        def cond(e):
+            if isinstance(e, ast.Compare) and len(e.ops) == 1:
+                op, l, r = e.ops[0], e.left, e.comparators[0]
+                if isinstance(op, (ast.In, ast.NotIn)) and isinstance(l, ast.Name) and l.id == "dsetname":
+                    return "ds.isSome" if isinstance(op, ast.In) else "ds.isNone"
+                sym = {ast.Eq: "==", ast.NotEq: "!=", ast.Lt: "<", ast.LtE: "≤", ast.Gt: ">", ast.GtE: "≥"}.get(type(op))
+                if sym:
+                    return f"decide ({nat(l)} {sym.replace('==', '=').replace('!=', '≠')} {nat(r)})"
+            if isinstance(e, ast.BoolOp):
+                return "(" + (" && " if isinstance(e.op, ast.And) else " || ").join(cond(v) for v in e.values) + ")"
+            if isinstance(e, ast.UnaryOp) and isinstance(e.op, ast.Not):
+                return f"(!{cond(e.operand)})"
+            raise Untranslatable(f"condition {ast.unparse(e)}")
+
+        def stmts(body):
+            out = ""
+            for st in body:
+                if isinstance(st, ast.Expr) and isinstance(st.value, ast.Constant):
+                    continue
+                u = ast.unparse(st)
+                if isinstance(st, ast.Expr) and u.startswith("memfp.seek("):
+                    continue
+                if isinstance(st, ast.Assign) and len(st.targets) == 1 and isinstance(st.targets[0], ast.Name):
+                    tn, v = st.targets[0].id, ast.unparse(st.value)
+                    if "frombuffer" in v and "memfp" in v:
+                        blob_names.add(tn); continue
+                    if "require_group" in v or v == "fp":
+                        alias.add(tn); continue
+                    raise Untranslatable(f"statement {u[:80]}")
+                if isinstance(st, ast.Expr) and isinstance(st.value, ast.Call) and isinstance(st.value.func, ast.Attribute):
+                    f = st.value.func
+                    kw = {k.arg: k.value for k in st.value.keywords}
+                    if f.attr == "create_dataset" and isinstance(f.value, ast.Name) and f.value.id in alias | {"fp"}:
+                        shp = kw.get("shape")
+                        if shp is None or ast.unparse(shp) not in {f"{b}.shape" for b in blob_names}:
+                            raise Untranslatable(f"create_dataset with shape {ast.unparse(shp) if shp else None}")
+                        if "maxshape" not in kw:
+                            raise Untranslatable("create_dataset without maxshape (not resizable)")
+                        out += "let ds : Option Model.Bytes := some (List.replicate blob.length 0)\n"
+                        continue
+                    if f.attr == "resize" and is_dset(f.value) and len(st.value.args) == 1 and isinstance(st.value.args[0], ast.Tuple) \
+                            and len(st.value.args[0].elts) == 1:
+                        out += f"let ds := ds.map (fun d => Model.resizeDset d {nat(st.value.args[0].elts[0])})\n"
+                        continue
+                    raise Untranslatable(f"call {u[:80]}")
+                if isinstance(st, ast.Assign) and len(st.targets) == 1 and isinstance(st.targets[0], ast.Subscript) \
+                        and is_dset(st.targets[0].value) and ast.unparse(st.targets[0].slice) == ":" \
+                        and isinstance(st.value, ast.Name) and st.value.id in blob_names:
+                    out += "let ds := ds.map (fun d => Model.writeAt0 d blob)\n"
+                    continue
+                if isinstance(st, ast.If):
+                    a = stmts(st.body) + "ds"
+                    b = stmts(st.orelse) + "ds"
+                    out += f"let ds := (if {cond(st.test)} then\n{indent(a)}\nelse\n{indent(b)})\n"
+                    continue
+                raise Untranslatable(f"statement {u[:80]}")
+            return out
+
+        body = stmts(fn.body) + "ds"
+        text = (f"/-- translated from `{spec['py']}` (dataset vocabulary: `ds` = the dataset or `none`, `blob` = the pickled payload) -/\n"
+                f"def {name} (blob : Model.Bytes) (ds : Option Model.Bytes) : Option Model.Bytes :=\n{indent(body)}\n")
+        self.sigs[name] = {"params": [("blob", "X", ("param", "blob")), ("ds", "X", ("param", "ds"))], "ret": "X", "fuel": False}
+        self.report["functions"][name] = {"source": spec["py"], "lean": f"Gen.{name}", "lines": [fn.lineno, fn.end_lineno], "notes": [], "params": ["blob", "ds"]}
+        return text
+
     # ---- one function
     def translate(self, name):
         spec = self.specs[name]
         rel, qual = spec["py"].split(":")
         fn = self.find(rel, qual)
+        if spec.get("mode") == "h5dump":
+            return self.translate_h5dump(name, spec, fn)
         env: dict = {}
         params: list = []          # (lean name, kind, origin)
         # objects (`self`, `samples`): their fields become parameters
@@ -1167,6 +1263,7 @@ def indent(s: str, n: int = 2) -> str:
 
 
 HEADER = """import AspireModel.Gen.Prelude
+import AspireModel.Model.CkptFile
 /-
   GENERATED by /verif/harness/translate/py2lean.py from /repo's working tree - do not edit.
   Source files: {files}
